@@ -212,7 +212,11 @@ VCtlRecords(ev) ==
       errs == [n \in 1..Cardinality(J) |-> item(CHOOSE i \in J : Cardinality({j \in J : j < i}) = n - 1).v]
   IN (IF ~wellFormed THEN <<"harness-ctl-records">>
       ELSE IF ~Finished(ev.out) THEN <<"outcome-" \o ev.out.t>>
-      ELSE IF ~partsOk THEN << >>                            \* a record that is not a single item alone: out of scope here
+      \* every record here is ONE record by construction (the specification confirms it): decoded alone
+      \* it must give exactly one result -- more means parsing went on past an unusable length
+      ELSE IF \E i \in 1..k : Finished(ev.parts[i].out) /\ Len(DecodeAvps(ev.recs[i]).items) = 1
+                                 /\ Len(ev.parts[i].out.v) # 1 THEN <<"error-count">>
+      ELSE IF ~partsOk THEN << >>                            \* not a single item alone: out of scope here
       ELSE IF shouldAccept
         THEN IF ev.out.t # "ok" THEN <<"all-or-nothing">>
              ELSE T(~AvpsEq(ev.out.v.avps, [i \in 1..k |-> item(i).v]), "all-or-nothing")
